@@ -78,6 +78,10 @@ def ensure_facts(config="A"):
     key, nfiles = tree_hash()
     out = os.path.join(CACHE, f"facts-{config}-{key}")
     if os.path.exists(os.path.join(out, "OK")):
+        try:
+            os.utime(out, None)
+        except OSError:
+            pass
         return out
     lock = open(os.path.join(CACHE, f"lock-{config}"), "w")
     fcntl.flock(lock, fcntl.LOCK_EX)
@@ -125,7 +129,7 @@ def ensure_facts(config="A"):
         # keep the cache small: drop older fact dirs of this config
         olds = sorted((d for d in os.listdir(CACHE) if d.startswith(f"facts-{config}-") and not d.endswith(".tmp")),
                       key=lambda d: os.path.getmtime(os.path.join(CACHE, d)))
-        for d in olds[:-3]:
+        for d in olds[:-8]:
             shutil.rmtree(os.path.join(CACHE, d), ignore_errors=True)
         log(f"[facts] config {config}: extracted in {time.time() - t0:.1f}s -> {out}")
         return out
@@ -204,3 +208,56 @@ class Facts:
 
     def crates(self, names):
         return [self.crate(n) for n in names]
+
+
+def ensure_fixture():
+    """Facts of /verif/fixtures/poscontrol, extracted with the same driver (cached by the hash of the fixture and driver sources)."""
+    import hashlib
+    os.makedirs(CACHE, exist_ok=True)
+    fdir = os.path.join(VERIF, "fixtures", "poscontrol")
+    h = hashlib.sha256()
+    for rel in ("src/lib.rs", "Cargo.toml"):
+        with open(os.path.join(fdir, rel), "rb") as fh:
+            h.update(fh.read())
+    with open(os.path.join(DRIVER_DIR, "src", "main.rs"), "rb") as fh:
+        h.update(fh.read())
+    out = os.path.join(CACHE, "poscontrol-" + h.hexdigest()[:16])
+    if os.path.exists(os.path.join(out, "OK")):
+        return out
+    lock = open(os.path.join(CACHE, "lock-poscontrol"), "w")
+    fcntl.flock(lock, fcntl.LOCK_EX)
+    try:
+        if os.path.exists(os.path.join(out, "OK")):
+            return out
+        if not os.path.exists(DRIVER):
+            build_driver()
+        tmp = out + ".tmp"
+        shutil.rmtree(tmp, ignore_errors=True)
+        os.makedirs(tmp)
+        target = os.path.join(CACHE, "target-poscontrol")
+        shutil.rmtree(target, ignore_errors=True)
+        env = dict(os.environ)
+        env.update({"LD_LIBRARY_PATH": sysroot() + "/lib", "MIRFACTS_OUT": tmp, "RUSTFLAGS": "-Zmir-opt-level=0 -Awarnings",
+                    "RUSTC_WORKSPACE_WRAPPER": DRIVER, "CARGO_TARGET_DIR": target, "CARGO_NET_OFFLINE": "true"})
+        env.pop("RUSTUP_TOOLCHAIN", None)
+        r = subprocess.run(["cargo", "+nightly", "check", "--offline"], cwd=fdir, env=env, stdout=subprocess.PIPE, stderr=subprocess.STDOUT, text=True)
+        if r.returncode != 0 or not any(f.startswith("poscontrol") for f in os.listdir(tmp)):
+            log(r.stdout[-3000:])
+            raise SystemExit("positive-control fixture failed to build")
+        with open(os.path.join(tmp, "OK"), "w") as f:
+            f.write("ok")
+        shutil.rmtree(out, ignore_errors=True)
+        os.rename(tmp, out)
+        shutil.rmtree(target, ignore_errors=True)
+        return out
+    finally:
+        fcntl.flock(lock, fcntl.LOCK_UN)
+        lock.close()
+
+
+class FixtureFacts(Facts):
+    def __init__(self):
+        self.config = "poscontrol"
+        self.dir = ensure_fixture()
+        self._crates = {}
+        self.files = {f.split("-")[0]: os.path.join(self.dir, f) for f in os.listdir(self.dir) if f.endswith(".json")}
